@@ -740,6 +740,16 @@ def scale_families():
     # member names that differ only by white space (inside the name), by a final / initial space, by NBSP vs space
     fams["whitespace_keys"] = [(('first name', 's'),), (('firstname', 's'),), (('first  name', 's'),), ((' firstname', '1'),),
                                (('firstname ', 's'),), (('first\u00a0name', 's'),), (('first name', 's'), ('firstname', '1'))]
+    # names that look like JSON literals / numbers / are made of digits only
+    lit = ['0', '1', '10', '01', '-1', '1e5', 'true', 'false', 'null', 'NaN', '1.0']
+    fams["literal_like_keys"] = [tuple((k, '1') for k in sorted(lit)), tuple((k, 's') for k in sorted(lit[::2])), (('0', '1'),), (('00', '1'),),
+                                 (('true', 't'), ('null', None)), (('1', '1'), ('10', 's'), ('2', 't'))]
+    # every mixture of the three "empty" values and null, as elements and as members
+    E = [None, [], ()]
+    fams["empties"] = [[a, b] for a in E for b in E] + [[None, [], ()], [(), [], None], (('a', None), ('b', []), ('c', ())),
+                       (('a', []), ('b', ()), ('c', None)), [[None], []], [[], [None]], [(('a', []),), (('a', ['1']),)], [(('a', ()),), (('a', None),)]]
+    # a member that becomes a union containing null and is absent elsewhere (needs three or more sources)
+    fams["union_null_member"] = [(('k', None),), (('k', '1'),), (('k', 's'),), (), (('k', ['1']),), (('j', 't'),)]
     p = "shared_prefix_" * 6
     fams["prefix_keys"] = [((p + 'a', '1'), (p + 'b', 's')), ((p + 'a', 's'), (p + 'b', 's')), ((p + 'a', '1'),), ((p + 'b', 's'), (p + 'c', 't')),
                            ((p, '1'), (p + 'a', '1'))]
